@@ -269,6 +269,12 @@ class GuardDefinition:
             # 🌳 Composite guards accept their operands under `children`, or
             #    (as XState's helpers emit) inside `params`.
             children_cfg = config.get("children") or []
+            if not isinstance(children_cfg, (list, tuple)):
+                raise InvalidConfigError(
+                    f"❌ Guard '{self.type}' has an invalid 'children' value "
+                    f"of type '{type(children_cfg).__name__}'. Expected a "
+                    "list of guards."
+                )
             if not children_cfg and isinstance(self.params, dict):
                 children_cfg = (
                     self.params.get("guards")
@@ -791,9 +797,14 @@ class StateNode(Generic[TContext, TEvent]):
             return initial
 
         # 🕰️ History pseudo-states are never a valid initial target.
+        raw_states = config.get("states", {})
+        if not isinstance(raw_states, dict):
+            # 🧱 `states` of the wrong shape is reported by the validation in
+            #    `__init__`; nothing can be inferred from it here.
+            return initial
         candidates = [
             key
-            for key, child in config.get("states", {}).items()
+            for key, child in raw_states.items()
             if not (isinstance(child, dict) and child.get("type") == "history")
         ]
 
@@ -1153,7 +1164,14 @@ class MachineNode(StateNode[TContext, TEvent]):
         self.initial_context = raw_context
         #: Upper bound on microsteps when settling transient ("always")
         #: transitions, mirroring XState's `maxIterations` (v5.31.0).
-        self.max_iterations: int = int(config.get("maxIterations", 1000))
+        raw_max_iterations = config.get("maxIterations", 1000)
+        try:
+            self.max_iterations: int = int(raw_max_iterations)
+        except (TypeError, ValueError):
+            raise InvalidConfigError(
+                f"Machine '{config['id']}' has an invalid 'maxIterations' "
+                f"value {raw_max_iterations!r}. Expected an integer."
+            ) from None
         #: Machine-level output declaration, resolved when a top-level final
         #: state is reached.
         self.machine_output: Any = config.get("output")
